@@ -22,7 +22,7 @@ pub mod sync;
 pub mod thread;
 pub mod time;
 
-pub use sched::{Opt, OptKind, Scheduler};
+pub use sched::{Allow, AllowSched, Opt, OptKind, Scheduler};
 
 static NEXT_OBJ: AtomicUsize = AtomicUsize::new(1);
 
@@ -144,6 +144,8 @@ pub(crate) struct Inner {
     events: Vec<Event>,
     phase: u64,
     phase_obj: usize,
+    gates: std::collections::HashSet<u64>,
+    gate_objs: HashMap<u64, usize>,
     lib_spawned: usize,
     trace_sched: bool,
 }
@@ -264,7 +266,29 @@ impl Rt {
                     }
                 }
             }
-            let idx = if menu.len() == 1 {
+            let idx = if g.sched.restrictive() {
+                match g.sched.choose_opt(&menu) {
+                    Some(i) => i,
+                    None => {
+                        // nothing the controller allows can run: hand the execution back
+                        g.status = Status::Idle;
+                        g.cur = None;
+                        let parker = me.and_then(|m| {
+                            if g.th[m].st != St::Finished {
+                                Some(g.th[m].parker.clone())
+                            } else {
+                                None
+                            }
+                        });
+                        drop(g);
+                        self.ctl.notify_all();
+                        if let Some(p) = parker {
+                            p.park();
+                        }
+                        return;
+                    }
+                }
+            } else if menu.len() == 1 {
                 0
             } else {
                 let i = g.sched.choose(&menu);
@@ -551,6 +575,8 @@ impl Execution {
                     events: Vec::new(),
                     phase: 0,
                     phase_obj: new_obj(),
+                    gates: std::collections::HashSet::new(),
+                    gate_objs: HashMap::new(),
                     lib_spawned: 0,
                     trace_sched: std::env::var_os("VRT_TRACE").is_some(),
                 }),
@@ -613,6 +639,59 @@ impl Execution {
             g.phase_obj
         };
         self.rt.wake_obj(obj);
+    }
+
+    /// open a gate: threads blocked in `gate_wait(id)` may pass (directed execution)
+    pub fn open_gate(&self, id: u64) {
+        let obj = {
+            let mut g = self.rt.lock();
+            g.gates.insert(id);
+            *g.gate_objs.entry(id).or_insert_with(new_obj)
+        };
+        self.rt.wake_obj(obj);
+    }
+
+    pub fn tid_of(&self, name: &str) -> Option<usize> {
+        self.rt.lock().th.iter().position(|t| t.name == name)
+    }
+
+    /// let the timer of a blocked thread expire now (its deadline must have been reached)
+    pub fn fire_timer(&self, tid: usize) -> bool {
+        let mut g = self.rt.lock();
+        let now = g.now;
+        if let St::Blocked { obj, deadline: Some(d), .. } = g.th[tid].st.clone() {
+            if d <= now {
+                if let Some(w) = g.cvw.get_mut(&obj) {
+                    w.retain(|x| *x != tid);
+                }
+                g.th[tid].st = St::Runnable;
+                g.th[tid].fired = true;
+                return true;
+            }
+        }
+        false
+    }
+
+    /// spurious wake-up of one thread blocked in a condvar wait
+    pub fn spurious_one(&self, tid: usize) -> bool {
+        let mut g = self.rt.lock();
+        if let St::Blocked { obj, what: "condvar", .. } = g.th[tid].st.clone() {
+            if let Some(w) = g.cvw.get_mut(&obj) {
+                w.retain(|x| *x != tid);
+            }
+            g.th[tid].st = St::Runnable;
+            return true;
+        }
+        false
+    }
+
+    /// move the virtual clock forward without running anything
+    pub fn advance_clock(&self, ns: u64) {
+        let mut g = self.rt.lock();
+        g.now += ns;
+        if g.horizon < g.now {
+            g.horizon = g.now;
+        }
     }
 
     pub fn snapshot(&self) -> Vec<ThreadInfo> {
@@ -706,6 +785,22 @@ pub fn spurious_wake_all() {
         for t in all {
             g.th[t].st = St::Runnable;
         }
+    }
+}
+
+/// block until the controller has opened gate `id` (directed execution)
+pub fn gate_wait(id: u64) {
+    let (rt, me) = cur_or_panic("gate_wait");
+    loop {
+        let (open, obj) = {
+            let mut g = rt.lock();
+            let o = *g.gate_objs.entry(id).or_insert_with(new_obj);
+            (g.gates.contains(&id), o)
+        };
+        if open {
+            return;
+        }
+        rt.block(me, obj, "gate", None);
     }
 }
 
